@@ -3,11 +3,15 @@
 //	mode topo: adj [[children of node 0], [children of node 1], ...], roots [...]
 //	   -> out [nodes in the order yielded]; a panic is {"panic": msg} (from vhlib)
 //	   with reuse=true the same Sorter is used for a second identical Sort and out2 is returned as well
+//	mode topohist: adj, uses [{roots, take, same}]: ONE Sorter; each use iterates s.Sort(roots, dag) (same=true: iterates
+//	   the iter.Seq of the previous use again), stops after take elements (0 = takes all)
+//	   -> uses [{out, stopped, panic?}] (a panic ends that use only; the Sorter is used on)
 //	mode trie: keys [hex...] (value of key i is i+1), queries [hex...]
 //	   -> res [{get:[prefixhex,value], prefixes:[[prefixhex,value]...]}...]
 package main
 
 import (
+	"fmt"
 	"iter"
 	"slices"
 
@@ -25,6 +29,25 @@ func nums(a any) []int {
 		out[i] = int(vhlib.AnyNum(x))
 	}
 	return out
+}
+
+// oneUse iterates seq, breaking out of the loop on the take-th element (0: never).
+func oneUse(seq iter.Seq[int], take int) (res map[string]any) {
+	out := []any{}
+	stopped := false
+	defer func() {
+		if r := recover(); r != nil {
+			res = map[string]any{"out": out, "stopped": false, "panic": fmt.Sprint(r)}
+		}
+	}()
+	for n := range seq {
+		out = append(out, n)
+		if take > 0 && len(out) == take {
+			stopped = true
+			break
+		}
+	}
+	return map[string]any{"out": out, "stopped": stopped}
 }
 
 func topotrieCase(in map[string]any) map[string]any {
@@ -46,6 +69,28 @@ func topotrieCase(in map[string]any) map[string]any {
 			out = append(out, n)
 		}
 		return map[string]any{"out": out}
+	case "topohist":
+		var adj [][]int
+		for _, a := range vhlib.List(in, "adj") {
+			adj = append(adj, nums(a))
+		}
+		dag := func(n int) iter.Seq[int] {
+			if n < 0 || n >= len(adj) {
+				return slices.Values([]int(nil))
+			}
+			return slices.Values(adj[n])
+		}
+		sorter := &toposort.Sorter[int, int]{Key: func(n int) int { return n }}
+		var seq iter.Seq[int]
+		res := []any{}
+		for _, u := range vhlib.List(in, "uses") {
+			um, _ := u.(map[string]any)
+			if !vhlib.Bool(um, "same") || seq == nil {
+				seq = sorter.Sort(nums(um["roots"]), dag)
+			}
+			res = append(res, oneUse(seq, int(vhlib.Num(um, "take"))))
+		}
+		return map[string]any{"uses": res}
 	case "trie":
 		var t trie.Trie[int]
 		for i, k := range vhlib.Strs(in, "keys") {
